@@ -252,7 +252,7 @@ func NewNNSDriver(mode string) *NNSDriver {
 		add(nnsOp{kind: "register", name: "aa.com", who: "U1", signer: s("U1")})
 	case "C12r":
 		d.pre = []string{"aa.com", "bb.com"}
-		d.names = []string{"aa.com", "bb.com", "x.aa.com", "y.x.aa.com"}
+		d.names = []string{"aa.com", "bb.com", "x.aa.com", "y.x.aa.com", "yx.aa.com"}
 		u := s("U1")
 		add(
 			nnsOp{kind: "add", name: "aa.com", typ: rtTXT, data: "t1", signer: u},
@@ -971,7 +971,7 @@ func (d *NNSDriver) readback(x *Exec, prev, nn *Node, m, nm *nnsModel, outcome s
 		}
 		// getAllRecords: every record of the name, ordered by (type, id)
 		ga := rd("getAllRecords", n)
-		if live && below < 2 {
+		if live && (below < 2 || ga.Halt) { // deep sub-names: judged whenever the method answers at all
 			var want []string
 			for _, t := range []int{rtA, rtCNAME, rtSOA, rtTXT, rtAAAA} {
 				if t == rtSOA {
@@ -1017,7 +1017,7 @@ func (d *NNSDriver) readback(x *Exec, prev, nn *Node, m, nm *nnsModel, outcome s
 			return viol("records-reachable-after-expiry", fmt.Sprintf("getAllRecords(%s)=%v though %s is not alive", n, ga.Stack, tok), wh)
 		}
 		// resolve, with and without the trailing dot
-		for _, t := range []int{rtTXT, rtA, rtCNAME} {
+		for _, t := range []int{rtTXT, rtA, rtCNAME, rtAAAA} {
 			want, verdict := nm.resolve(n, t)
 			for _, q := range []string{n, n + "."} {
 				rs := rd("resolve", q, int64(t))
